@@ -466,4 +466,13 @@ def rule_f(prog, rep):
             rep.ok('C06.f', f'Worterbuch::{fname}', f.loc, f'Store::{sfn}(client_id, parse_segments(key))' + ('?' if has_result else ' -> Ok(receiver)'))
 
 
-RULES = [('C06.f', rule_f), ('C06.a', rule_a), ('C06.b', rule_b), ('C06.c', rule_c), ('C06.d', rule_d), ('C06.e', rule_e)]
+def rule_g(prog, rep):
+    rep.rule('C06.g', 'T1', "releasing one key's lock touches no other lock: the lock tree mirrors the key hierarchy, so "
+             'Store::ndelete_lock_nodes may only take the Lock stored at the end of the path (take_value) and prune emptied nodes '
+             '(trim); dropping the sub-tree would discard the locks (holder and queue) of every key below the released one')
+    from .c04 import single_key_removal_discipline
+    n = single_key_removal_discipline(prog, rep, 'C06.g', ('ndelete_lock_nodes',), 'the Lock')
+    rep.floor('C06.g', n, 2, 'removal operations in ndelete_lock_nodes')
+
+
+RULES = [('C06.g', rule_g), ('C06.f', rule_f), ('C06.a', rule_a), ('C06.b', rule_b), ('C06.c', rule_c), ('C06.d', rule_d), ('C06.e', rule_e)]
